@@ -197,16 +197,30 @@ def run(ctx):
         fams["no-screening/adaptive"] = dict(kind="bar", dt=dt, dt_max=0.05, adaptive=True, solve_time=0.8, k=10, tolq=5, Bfactor=1.5)
         three_more = [[-9, 0, -3], [-3, -6, -9]]
     else:
-        three_more = []
+        three_more = [[-9, 0, -3]]        # a system whose current/length ratio is not A/m (uA/um = nA/nm = mA/mm = A/m)
     jobs, tags = [], []
     for label, a in fams.items():
         for u in three + three_more:
             jobs.append(("call", dict(module="harness.units", func="run_twin", args=dict({k: v for k, v in a.items() if k != "tolq"}, u=u))))
             tags.append((label, u))
     runs = rf.replay_all(ctx, jobs)
+    failed = [(tag, r_["error"]) for tag, r_ in zip(tags, runs) if "error" in r_]
+    if failed and len(failed) == len(runs) and not ctx.violations:
+        raise core.MachineryFailure(f"C08: every run failed: {failed[0]}")
     ttr = []
     for label, a in fams.items():
         mine = [(u, r_) for (lab, u), r_ in zip(tags, runs) if lab == label]
+        bad_runs = [(u, r_) for u, r_ in mine if "error" in r_]
+        if bad_runs:
+            # a run that raises in one unit system is an observation too: the outcome must not depend on the units
+            ev = [{"run": "/".join(units.unit_names(u)), "key": "outcome", "q": [1 if "error" in r_ else 0]} for u, r_ in mine]
+            if len(bad_runs) == len(mine):
+                ctx.cov.setdefault("run_families_that_raised_in_every_unit_system", {})[label] = bad_runs[0][1]["error"][-200:]
+                if not ctx.violations:
+                    raise core.MachineryFailure(f"C08: {label} raised in every unit system: {bad_runs[0][1]['error']}")
+                continue
+            ttr.append({"tol": 0, "minruns": len(mine), "ev": ev, "label": label + " (outcome: " + bad_runs[0][1]["error"][-120:] + ")"})
+            continue
         refrun = mine[0][1]
         scale = {}
         for qn in ("abs_psi", "Js", "Jn", "dmu"):
